@@ -573,3 +573,92 @@ Print Assumptions just_attributes_sees_iterator.
 Print Assumptions expand_equals_unroll_without_conforms_refuted.
 Print Assumptions known_for_each_needs_single_mark_blocks.
 Print Assumptions known_for_each_needs_single_mark_err.
+
+(* ---- children of a REMAINING body ------------------------------------------------------------------------
+   expandChild builds the body of a static or generated block from the parent's forEachCtx,
+   iteration and marks only: hiddenAttrs / hiddenBlocks of the child are EMPTY, whatever an
+   earlier PartialContent has hidden in the parent.  So, decoding in several steps
+   (hcldec.PartialDecode then Decode of the remaining body, gohcl `remain`), a nested
+   attribute or block is never hidden by a name consumed at an outer level, in static
+   children and in generated blocks alike.  (The k-step laws of Dyn/ExpandLaws.v —
+   expand_two_step, expand_k_step — state the block lists of a multi-step reading equal
+   those of the one-step reading, bodies included.) *)
+Definition nothing_hidden (x : xbody) : Prop :=
+  match x with
+  | XE e => eb_hattrs e = [] /\ eb_hblocks e = []
+  | XU (XE e) _ => eb_hattrs e = [] /\ eb_hblocks e = []
+  | XU (XU _ _) _ => False
+  end.
+
+Lemma expand_child_nothing_hidden b child i m :
+  eb_hattrs (expand_child b child i m) = [] /\ eb_hblocks (expand_child b child i m) = [].
+Proof. split; reflexivity. Qed.
+
+(* the children of a remaining body are the children of the body itself *)
+Lemma expand_child_of_remaining_body s b child i m :
+  expand_child (snd (eb_partial_content s b)) child i m = expand_child b child i m.
+Proof. reflexivity. Qed.
+
+Lemma new_block_nothing_hidden b t les content i m u blk :
+  In blk (fst (fst (new_block b t les content i m u))) -> nothing_hidden (xb_body blk).
+Proof.
+  unfold new_block. destruct (eval_labels _ les); cbn; intro H; try contradiction.
+  destruct H as [<-|[]]. destruct u; cbn; split; reflexivity.
+Qed.
+
+Lemma expand_block1_nothing_hidden b s p d blk :
+  In blk (fst (fst (expand_block1 b s p d))) -> nothing_hidden (xb_body blk).
+Proof.
+  destruct d as [n e|t ls body|t fe it les content|[t|]]; cbn [expand_block1 xres_nil fst];
+    try contradiction.
+  - destruct (existsb _ (eb_hblocks b)); cbn; [contradiction|]. intros [<-|[]]. cbn. split; reflexivity.
+  - destruct (existsb _ (eb_hblocks b)); cbn; [contradiction|].
+    destruct (afind_last t (s_blocks s)) as [n|]; cbn; [|contradiction].
+    destruct (decode_spec b n t fe it les) as [u|v iname]; cbn; [contradiction|].
+    destruct (unmark v) as [fv m]. destruct (is_known fv).
+    + unfold xres_concat. cbn [fst]. rewrite map_map. intro H. apply in_concat in H as [l [Hl Hb]].
+      apply in_map_iff in Hl as [kv [<- _]]. exact (new_block_nothing_hidden _ _ _ _ _ _ _ _ Hb).
+    + intro H. exact (new_block_nothing_hidden _ _ _ _ _ _ _ _ H).
+  - destruct (existsb _ (eb_hblocks b)); cbn; [contradiction|].
+    destruct (afind_last t (s_blocks s)); cbn; contradiction.
+Qed.
+
+(* every block Content or PartialContent returns — of ANY expandBody, a remaining one included —
+   has a body with nothing hidden *)
+Theorem returned_blocks_have_nothing_hidden : forall s eb blk,
+  In blk (xc_blocks (eb_content s eb)) \/ In blk (xc_blocks (fst (eb_partial_content s eb))) ->
+  nothing_hidden (xb_body blk).
+Proof.
+  intros s eb blk [H|H].
+  - rewrite eb_content_blocks in H. apply in_flat_map in H as [d [_ H]].
+    destruct (native_block_ok _ d); [|contradiction]. exact (expand_block1_nothing_hidden _ _ _ _ _ H).
+  - assert (E : xc_blocks (fst (eb_partial_content s eb)) =
+                flat_map (fun d => if native_block_ok (extend_schema eb s) d
+                                   then fst (fst (expand_block1 eb s true d)) else []) (eb_orig eb)).
+    { unfold eb_partial_content, native_partial, expand_blocks, xres_concat. cbn [fst xc_blocks].
+      rewrite map_map. apply concat_map_filter. }
+    rewrite E in H. apply in_flat_map in H as [d [_ H]].
+    destruct (native_block_ok _ d); [|contradiction]. exact (expand_block1_nothing_hidden _ _ _ _ _ H).
+Qed.
+
+(* `name = "x"  b { name = "x" }  dynamic "b" { for_each = ["a"]  content { name = b.value } }`:
+   PartialContent consumes the outer `name`; the blocks of the remaining body still expose
+   theirs, the static one and the generated one *)
+Definition ms_name : list Z := [110; 97; 109; 101].
+Definition ms_body : dbody :=
+  [DAttr ms_name (ELit (VStr str_x));
+   DBlock str_b [] [DAttr ms_name (ELit (VStr str_x))];
+   DDynamic str_b (ELit (VList TStr [VStr str_a])) None [] [DAttr ms_name (EScopeTrav str_b [SAttr s_value])]].
+Example nested_name_survives_outer_partial_content :
+  let s_name := mkSchema [(ms_name, false)] [] in
+  let '(c1, r) := xb_partial_content s_name (Expand ms_body []) in
+  map fst (xc_attrs c1) = [ms_name]
+  /\ map fst (xc_attrs (xb_content s_name r)) = []
+  /\ map (fun blk => map (fun a => (fst a, fst (xvalue [] (snd a)))) (xc_attrs (xb_content s_name (xb_body blk))))
+         (xc_blocks (xb_content (mkSchema [] [(str_b, 0)]) r))
+     = [[(ms_name, VStr str_x)]; [(ms_name, VStr str_a)]].
+Proof. vm_compute. repeat split; reflexivity. Qed.
+
+Print Assumptions expand_child_of_remaining_body.
+Print Assumptions returned_blocks_have_nothing_hidden.
+Print Assumptions nested_name_survives_outer_partial_content.
